@@ -66,7 +66,8 @@ ASSUMPTIONS = [
     "unit strings rendered by harness.gen.render_units parse to the intended containers (verified "
     "per unit at shard start; parsing itself is C07/C08)",
     "float / Decimal / ndarray runs are decided with a propagated first-order error bound "
-    "(16 ulp per operation, factor 4): ill-conditioned nodes are skipped and counted, never decided",
+    "(2.5e-10 relative per operation in float, 2.5e-23 in Decimal, safety factor 4): ill-conditioned "
+    "nodes (ties, floor discontinuities, cancellation to zero) are skipped and counted, never decided",
     "electron_g_factor (negative scale) and offset/log/delta units are not used as leaves",
 ]
 SHARD_TIMEOUT = {"quick": 600, "thorough": 3000}
@@ -87,7 +88,10 @@ ANCHORED = ("_add_sub", "_iadd_sub", "__rsub__", "_mul_div", "_imul_div", "__tru
             "__pow__", "__ipow__", "__rpow__", "__eq__", "compare", "__neg__", "__abs__")
 NAN = float("nan")
 K_TOL = 4.0            # safety factor on the propagated bound
-C_ULP = 16.0           # roundings charged per operation / conversion
+# relative error charged per operation / conversion, chosen so that K_TOL * REL is the tolerance of
+# the DESIGN plan (1e-9 in float / ndarray runs, 1e-22 in Decimal runs).  A tighter "few ulp" bound
+# is wrong for pint: meter**8 * bohr -> bohr**9 under auto_reduce_dimensions is off by 3e-13.
+REL = {"float": 2.5e-10, "ndarray": 2.5e-10, "decimal": 2.5e-23}
 
 
 def exhaustive(tier):
@@ -238,8 +242,8 @@ class Cx:
         self.mode = mode
         self.exact = mode == "fraction"
         self.trunc = mode == "decimal"          # Decimal // and % truncate towards zero
-        self.u = 0.0 if self.exact else (1e-26 if mode == "decimal" else 2.0 ** -53)
-        self.cu = C_ULP * self.u
+        self.u = 0.0 if self.exact else (1e-27 if mode == "decimal" else 2.0 ** -53)
+        self.cu = 0.0 if self.exact else REL[mode]
         self.array = mode == "ndarray"
         self.maxlog = 14          # decades allowed for the factor of a leaf unit in float runs
 
@@ -442,10 +446,14 @@ def _model_pow(a, b, cx):
                 return merr("zerodiv") if not cx.array else skip("array-division-by-zero")
         try:
             v = a.v ** n
-            if n >= 0:
-                bound = (fa + a.err) ** n - fa ** n
+            # mean value theorem with the derivative taken at the unfavourable end (a difference of
+            # two nearly equal floats would cancel to zero for Decimal-sized errors)
+            if n == 0:
+                bound = 0.0
+            elif n > 0:
+                bound = n * (fa + a.err) ** (n - 1) * a.err
             else:
-                bound = (fa - a.err) ** n - fa ** n
+                bound = -n * (fa - a.err) ** (n - 1) * a.err
             e = abs(bound) + cx.cu * max(1, abs(n)) * _af(v)
         except (OverflowError, ZeroDivisionError):
             return skip("float-range")
